@@ -337,6 +337,8 @@ func drawFmtFile(t *rapid.T, w *World, maxLines int) FmtFile {
 		nl := "\n"
 		if chance(t, 15, "soup-crlf") {
 			nl = "\r\n"
+		} else if chance(t, 6, "soup-crcrlf") {
+			nl = "\r\r\n" // what some editors and transfers leave behind
 		}
 		var sb strings.Builder
 		if chance(t, 20, "soup-header") {
@@ -361,7 +363,10 @@ func drawFmtFile(t *rapid.T, w *World, maxLines int) FmtFile {
 		f.Mode = "boundary"
 		content = pick(t, []string{"", "\n", "\n\n\n", " ", " \t \n", "\r\n", raHeader, raHeader + "\n", raHeader + "\n\n", strings.TrimRight(raHeader, "\n"),
 			raHeader + "foo\n", raHeader + "\nfoo", "foo", "##!", "\t##!<\n", raHeader + "\n" + raHeader, raHeader + raHeader + "foo\n", raHeader + "\n" + raHeader + "\nbar\n",
-			"\n" + raHeader + "\nfoo\n", "\n" + raHeader + "\n##! note\nfoo\nbar\n", " \n" + raHeader + "foo\n", "\n\n" + raHeader + "\nfoo\n", "\n" + raHeader}, "boundary")
+			"\n" + raHeader + "\nfoo\n", "\n" + raHeader + "\n##! note\nfoo\nbar\n", " \n" + raHeader + "foo\n", "\n\n" + raHeader + "\nfoo\n", "\n" + raHeader,
+			// the first line of the header followed by a comment that merely starts like its second line
+			strings.SplitAfter(raHeader, "\n")[0] + "##! https://coreruleset.org/docs/development/regex_assembly/#include see the section on includes\n\nfoo\n",
+			strings.SplitAfter(raHeader, "\n")[0] + "##! https://coreruleset.org/docs/development/regex_assembly/ (moved)\nbar\n"}, "boundary")
 		switch content {
 		case "", "\n", "\n\n\n", " ", " \t \n", "\r\n", raHeader + "\n", raHeader + "\n\n", raHeader, strings.TrimRight(raHeader, "\n"):
 			f.Canon = raHeader + "\n"
